@@ -18,6 +18,7 @@ regions, sky frames without a DS9 name) must warn and must parse to the same
 regions as the list without them.
 """
 import math
+import os
 import warnings
 
 import numpy as np
@@ -254,7 +255,7 @@ def gen_meta(rng, richness=None):
     meta, vis = {}, {}
     if richness == 0:
         return meta, vis
-    inc = rng.choice(['absent', 'absent', True, False, 1, 0, 0])
+    inc = rng.choice(['absent', 'absent', True, False, 1, 0, 0, 'np_true', 'np_false'])      # np_*: NumPy booleans (an element of a boolean array)
     if inc != 'absent':
         meta['include'] = inc
     if rng.random() < 0.55:
@@ -497,7 +498,14 @@ def build_region(spec):
     for k in ('meta', 'visual'):
         if spec.get(k) is not None:
             clean[k] = spec[k]
+    npinc = None
+    if isinstance((clean.get('meta') or {}).get('include'), str):
+        clean['meta'] = dict(clean['meta'])
+        npinc = np.bool_(clean['meta'].pop('include') == 'np_true')
+        clean['meta']['include'] = True          # placeholder keeping the entry's position
     r = S.build(clean)
+    if npinc is not None:
+        r.meta['include'] = npinc
     ls = dict.get(r.visual, 'linestyle')
     if isinstance(ls, list):
         dict.__setitem__(r.visual, 'linestyle', (ls[0], tuple(ls[1])))
@@ -616,16 +624,32 @@ def _from_library(exc):
     return False
 
 
+_WRITE_EVERY = [0]
+
+
 def _ser(obj_or_list, api, p):
-    """serialize through the public API, recording warnings."""
+    """serialize through the public API, recording warnings.  Every third call goes through write() and reads the file's text
+    back: the writer is the serialiser plus a file, with the same options."""
     from regions import Regions
     kw = {} if p is None else {'precision': p}
+    _WRITE_EVERY[0] += 1
+    via_file = _WRITE_EVERY[0] % 3 == 0
+    target = obj_or_list[0] if api == 'region' else Regions(list(obj_or_list))
     with warnings.catch_warnings(record=True) as w:
         warnings.simplefilter('always')
-        if api == 'region':
-            s = obj_or_list[0].serialize(format='ds9', **kw)
+        if via_file:
+            import tempfile
+            d = tempfile.mkdtemp(prefix='vmon-c09-')
+            try:
+                path = os.path.join(d, 'out.reg')
+                target.write(path, format='ds9', overwrite=True, **kw)
+                with open(path, encoding='utf-8', newline='') as fh:
+                    s = fh.read()
+            finally:
+                import shutil
+                shutil.rmtree(d, ignore_errors=True)
         else:
-            s = Regions(list(obj_or_list)).serialize(format='ds9', **kw)
+            s = target.serialize(format='ds9', **kw)
     return s, w
 
 
